@@ -1,8 +1,8 @@
 """C01 - matrix-vector products equal the mathematical product in every storage format.
 
 Inputs on which the *property* fails on the unchanged tree (genuine FEAT defects, reproduced with the real containers
-at Q; /repo is not changed). The random generator avoids them; F1 and F2 are executed and judged on every run in the
-second stream "known-edge" (signatures c01-edge:F1 / c01-edge:F2, open entries of KNOWN_FINDINGS.json -> KNOWN-FINDING
+at Q; /repo is not changed). The random generator avoids the open ones; F1, F7 and F8 are executed and judged on every run in the
+second stream "known-edge" (signatures c01-edge:F1 / F7 / F8, open entries of KNOWN_FINDINGS.json -> KNOWN-FINDING
 lines; once fixed in FEAT the cases simply pass):
 
  F1  `dense apply 0 0 0 1/1 0 0 0`  (default-constructed 0x0 DenseMatrix, r and x empty; same for axpy / transposed and
@@ -16,13 +16,25 @@ lines; once fixed in FEAT the cases simply pass):
      claims; the damage needs a *later* write through r) the same overload's early-out leaves r a *shallow alias* of y
      (`bcsr 64 2 2 4 axpy 1 1 2 0 1 1 0 4 1/1 1/1 1/1 1/1 0/1 2 1/1 1/1 2 5/1 5/1 0`: values correct, but
      r.elements<pod>() == y.elements() afterwards, a later r.scale(r,2) turns y into 10 10).
- F4  TupleMatrix transposed products do not compile: `TupleMatrix<FirstRow_>::apply_transposed(r, x, y, alpha)`
+ F4  (FIXED in /repo by 349913221; now executed and judged like every other member) TupleMatrix transposed products did not compile: `TupleMatrix<FirstRow_>::apply_transposed(r, x, y, alpha)`
      (tuple_matrix.hpp:1330) calls `first().apply(r, x.first(), y, alpha)` instead of `first().apply_transposed(...)`;
      the 2-argument apply_transposed of a TupleMatrix with >= 2 rows needs that member for its last row. The harness can
-     only report NOT-OFFERED for these members (judged in known-edge, signature c01-edge:F4).
- F5  (compile-time, not executable) `SaddlePointMatrix::apply_transposed(DenseVector& r, const DenseVector& x)` calls
+     could only report NOT-OFFERED for these members.
+ F5  (FIXED in /repo by 349913221; the overload is now run as op applyTF) `SaddlePointMatrix::apply_transposed(DenseVector& r, const DenseVector& x)` called
      `block_b().applytransposed(r_rest, x_first)` (saddle_point_matrix.hpp:501, missing underscore): any use of this
      overload fails to compile. The Tuple/PowerVector overloads exercised here are fine.
+ F6  (compile-time, open) the flat DenseVector overloads of TupleDiagMatrix cannot be instantiated: they recurse into
+     `rest().apply(DenseVector&, ...)`, but the one-block specialisation `TupleDiagMatrix<First_>` (tuple_diag_matrix.hpp
+     ~l.905) only has the TupleVector overloads. The TupleVector overloads are run (types tdiag_*).
+ F7  (run-time, open) `PowerRowMatrix::apply_transposed(DenseVector& r, const DenseVector& x, const DenseVector& y, alpha)`
+     (power_row_matrix.hpp:547-548) calls `first().apply(...)` / `rest().apply(...)` instead of apply_transposed: wrong
+     values or a size assertion. Reached by axpyTF on every type containing a PowerRowMatrix with >= 2 blocks and by
+     applyTF where such a row is reached through a chained call (PowerFullMatrix, SaddlePointMatrix block D).
+     `meta prow3_csr axpyTF R csr 2 1 3 0 1 1 1 0 1 2/1 R csr 2 1 3 0 0 0 0 0 csr 2 1 3 0 0 0 0 0 1/1 2 1/1 1/1 3 0/1 0/1 0/1 0`
+     -> ABORT "Vector size of r does not match!", expected `R 3 2/1 0/1 0/1`.
+ F8  (run-time, open) the flat DenseVector overloads of all Power*/SaddlePoint matrices abort when a block has a zero
+     row or column count: the range constructor DenseVector(dv, size, offset) asserts size > 0.
+     `meta pdiag2_csr applyTF D csr 2 0 3 0 0 0 0 0 csr 2 2 3 0 0 0 0 0 1/1 4 2/7 -3/1 -5/3 0/1 0 0` -> ABORT, expected `R 2 0/1 0/1`.
 """
 import json
 import os
@@ -284,10 +296,18 @@ META_TYPES = {
     "tuple22_csr_dense": ("C", ("R", _C, _DN), ("R", _DN, _C)),
     "tuple22_bcsr": ("C", ("R", _b(2, 2), _b(2, 3)), ("R", _b(3, 2), _b(3, 3))),
     "tuple12_saddle": ("R", ("S", _C, _C, _C), ("S", _C, _C, _C)),
+    "tuple32_csr": ("C", ("R", _C, _C), ("C", ("R", _C, _C), ("R", _C, _C))),
+    "tdiag_csr_dense": ("D", _C, _DN),
+    "tdiag_csr_saddle_csr": ("D", _C, ("D", ("S", _C, _C, _C), _C)),
     "pdiag2_pfull22": ("D", ("C", ("R", _C, _C), ("R", _C, _C)), ("C", ("R", _C, _C), ("R", _C, _C))),
 }
-META_NO_APPLYT = {"tuple22_csr_dense", "tuple22_bcsr"}          # F4: does not compile
-META_NO_AXPYT = META_NO_APPLYT | {"tuple12_saddle"}
+# types that also have the overloads with flat DenseVector operands (all leaves use DenseVector; TupleMatrix has none and
+# the flat overloads of TupleDiagMatrix cannot be instantiated: its one-block specialisation lacks them - finding F6)
+META_FLAT = {"prow3_csr", "pcol3_csr", "pdiag2_csr", "pfull_w3h2_csr", "saddle_csr", "saddle_stokes", "pdiag2_pfull22"}
+
+
+META_F7_AXPYT = {"prow3_csr", "pfull_w3h2_csr", "saddle_stokes", "pdiag2_pfull22"}    # contain a PowerRowMatrix with >= 2 blocks
+META_F7_APPLYT = {"pfull_w3h2_csr", "saddle_stokes", "pdiag2_pfull22"}               # ... reached through a chained call
 
 
 def _unit(shape, axis):
@@ -364,17 +384,18 @@ def gen_tree(rng, shape, rows, cols, dims):
 
 def gen_meta_case(rng, dims=(0, 1, 1, 2, 2, 3, 4)):
     ty = rng.choice(sorted(META_TYPES))
-    ops = ["apply", "axpy", "axpy"]
-    if ty not in META_NO_APPLYT:
-        ops.append("applyT")
-    if ty not in META_NO_AXPYT:
-        ops += ["axpyT", "axpyT"]
-    op = rng.choice(ops)
+    op = rng.choice(["apply", "axpy", "axpy", "applyT", "axpyT", "axpyT"])
+    if ty in META_FLAT and rng.random() < 0.4:
+        # F7: the flat 4-argument PowerRowMatrix::apply_transposed calls apply; F8: the flat overloads abort on a block with
+        # a zero dimension (both judged in stream known-edge, avoided here)
+        if not ((op == "axpyT" and ty in META_F7_AXPYT) or (op == "applyT" and ty in META_F7_APPLYT)):
+            op += "F"
+            dims = tuple(d for d in dims if d > 0)
     if "dense" in ty:      # a DenseMatrix with a zero dimension cannot be constructed
         dims = tuple(d for d in dims if d > 0)
     toks, rows, cols = gen_tree(rng, META_TYPES[ty], None, None, dims)
     rows, cols = _tot(rows), _tot(cols)
-    tr = op.endswith("T")
+    tr = op.rstrip("F").endswith("T")
     nr, nx = (cols, rows) if tr else (rows, cols)
     return "meta %s %s %s %s" % (ty, op, " ".join(toks), tail(rng, nx, nr, op.startswith("axpy")))
 
@@ -384,6 +405,16 @@ def gen_cases(rng, count, sizes):
 
 
 CORPUS = [
+    # former finding F2 (fixed in /repo by 8f02f23f1): BCSR mixed overload with an empty y
+    "bcsr 64 2 3 4 axpy 0 0 1 0 0 0 0/1 0 0 0",
+    "bcsr 64 2 3 4 axpyT 0 0 1 0 0 0 0/1 0 0 0",
+    "bcsr 32 2 2 4 axpy 0 2 1 0 0 0 3/1 4 1/1 1/1 1/1 1/1 0 0",
+    "bcsr 32 3 2 4 axpyT 2 0 3 0 0 0 0 0 3/1 6 1/1 1/1 1/1 1/1 1/1 1/1 0 0",
+    # former finding F4 / F5 (fixed in /repo by 349913221): TupleMatrix transposed products, flat SaddlePoint apply_transposed
+    "meta tuple22_csr_dense applyT C R csr 1 1 2 0 1 1 0 1 2/1 dense 1 1 1 3/1 R dense 1 1 1 4/1 csr 1 1 2 0 1 1 0 1 5/1 1/1 2 1/1 1/1 0 0",
+    "meta tuple22_csr_dense axpyT C R csr 1 1 2 0 1 1 0 1 2/1 dense 1 1 1 3/1 R dense 1 1 1 4/1 csr 1 1 2 0 1 1 0 1 5/1 2/1 2 1/1 1/1 2 1/1 1/1 0",
+    "meta tuple12_saddle axpyT R S csr 1 1 2 0 1 1 0 1 2/1 csr 1 1 2 0 1 1 0 1 3/1 csr 1 1 2 0 1 1 0 1 4/1 S csr 1 1 2 0 1 1 0 1 5/1 csr 1 1 2 0 1 1 0 1 6/1 csr 1 1 2 0 1 1 0 1 7/1 2/1 2 1/1 1/1 4 1/1 1/1 1/1 1/1 0",
+    "meta saddle_csr applyTF S csr 1 1 2 0 1 1 0 1 2/1 csr 1 2 2 0 2 2 0 1 2 3/1 4/1 csr 2 1 3 0 1 2 2 0 0 2 5/1 6/1 1/1 3 1/1 1/1 1/1 0 0",
     # hand-written edge cases replayed first on every run: empty / 1x1 / rectangular / empty rows / aliasing / alpha classes
     "csr 64 apply 0 0 1 0 0 0 1/1 0 0 0",
     "csr 32 axpy 0 0 1 0 0 0 2/1 0 0 1",
@@ -519,6 +550,9 @@ class Case:
         """meta <cppType> OP <tree> alpha x y alias: the block matrix of the leaves (independent of the Lean model)"""
         self.ty = c.tok()
         self.op = c.tok()
+        self.flat = self.op.endswith("F")
+        if self.flat:
+            self.op = self.op[:-1]
         self.it, self.bs, self.bh, self.bw, self.vk = 64, 1, 1, 1, 0
         self.flags = set()
         self.leaves = 0
@@ -622,8 +656,6 @@ def oracle(case, out):
             return None
         if c.fmt == "banded" and c.tr and out == "ABORT:not-offered":
             return None     # the banded format does not offer the transposed product ("not implemented")
-        if out == "NOT-OFFERED":
-            return "%s declares %s but the member does not compile (TupleMatrix transposed products)" % (c.ty, c.op)
         if is_abnormal(out):
             return "%s %s on a valid input ended with %s" % (c.fmt, c.op, out)
         o = Tk(out)
@@ -748,6 +780,7 @@ def describe(case):
     if c.fmt == "meta":
         keys.append("meta-type:" + c.ty)
         keys.append("meta-depth:%d" % c.depth)
+        keys.append("meta-operands:" + ("flat DenseVector" if c.flat else "Tuple/PowerVector"))
     if c.fmt not in ("dense", "meta"):
         keys.append("it:%d" % c.it)
     if c.fmt == "bcsr":
@@ -785,19 +818,16 @@ for _op in ("apply", "applyT", "axpy", "axpyT"):
     EDGE["dense %s 0 0 0 1/1 0 0 0" % _op] = "c01-edge:F1"
     EDGE["banded 64 %s 0 0 0 0 1/1 0 0 0" % _op] = "c01-edge:F1"
 EDGE["dense axpy 0 0 0 2/1 0 0 1"] = "c01-edge:F1"                       # r aliasing y
-EDGE["bcsr 64 2 3 4 axpy 0 0 1 0 0 0 0/1 0 0 0"] = "c01-edge:F2"
-EDGE["bcsr 64 2 3 4 axpyT 0 0 1 0 0 0 0/1 0 0 0"] = "c01-edge:F2"
-EDGE["bcsr 32 2 2 4 axpy 0 2 1 0 0 0 3/1 4 1/1 1/1 1/1 1/1 0 0"] = "c01-edge:F2"      # 0 x 2 blocks, alpha general
-EDGE["bcsr 32 3 2 4 axpyT 2 0 3 0 0 0 0 0 3/1 6 1/1 1/1 1/1 1/1 1/1 1/1 0 0"] = "c01-edge:F2"
 
 
-EDGE["meta tuple22_csr_dense applyT C R csr 1 1 2 0 1 1 0 1 2/1 dense 1 1 1 3/1 R dense 1 1 1 4/1 csr 1 1 2 0 1 1 0 1 5/1 "
-     "1/1 2 1/1 1/1 0 0"] = "c01-edge:F4"
-EDGE["meta tuple22_csr_dense axpyT C R csr 1 1 2 0 1 1 0 1 2/1 dense 1 1 1 3/1 R dense 1 1 1 4/1 csr 1 1 2 0 1 1 0 1 5/1 "
-     "2/1 2 1/1 1/1 2 1/1 1/1 0"] = "c01-edge:F4"
-EDGE["meta tuple12_saddle axpyT R S csr 1 1 2 0 1 1 0 1 2/1 csr 1 1 2 0 1 1 0 1 3/1 csr 1 1 2 0 1 1 0 1 4/1 "
-     "S csr 1 1 2 0 1 1 0 1 5/1 csr 1 1 2 0 1 1 0 1 6/1 csr 1 1 2 0 1 1 0 1 7/1 "
-     "2/1 2 1/1 1/1 4 1/1 1/1 1/1 1/1 0"] = "c01-edge:F4"
+
+EDGE["meta prow3_csr axpyTF R csr 2 1 3 0 1 1 1 0 1 2/1 R csr 2 1 3 0 0 0 0 0 csr 2 1 3 0 0 0 0 0 "
+     "1/1 2 1/1 1/1 3 0/1 0/1 0/1 0"] = "c01-edge:F7"
+EDGE["meta pfull_w3h2_csr applyTF C R csr 3 2 4 0 0 0 0 0 0 R csr 3 1 4 0 1 1 1 1 0 1 1/1 csr 3 1 4 0 0 0 0 0 0 "
+     "R csr 2 2 3 0 1 1 1 1 1 -2/1 R csr 2 1 3 0 0 0 0 0 csr 2 1 3 0 0 0 0 0 1/1 5 2/1 -5/3 4/1 0/1 7/3 0 0"] = "c01-edge:F7"
+EDGE["meta pdiag2_csr applyTF D csr 2 0 3 0 0 0 0 0 csr 2 2 3 0 0 0 0 0 1/1 4 2/7 -3/1 -5/3 0/1 0 0"] = "c01-edge:F8"
+EDGE["meta saddle_csr applyF S csr 2 2 3 0 2 2 2 1 0 2 -4/1 3/7 csr 2 0 3 0 0 0 0 0 csr 1 2 2 0 2 2 0 1 2 -9/7 4/3 "
+     "1/1 2 -3/1 -1/1 0 0"] = "c01-edge:F8"
 
 
 def edge_signature(case, out, why):
@@ -807,7 +837,7 @@ def edge_signature(case, out, why):
 def edge_model_filter(case):
     # the Lean model reproduces F1 (Dense.apply / Banded.apply return none for two empty vectors);
     # it does not model the std::out_of_range of F2
-    return EDGE.get(case) in ("c01-edge:F1", "c01-edge:F4")
+    return EDGE.get(case) == "c01-edge:F1"
 
 
 def signature(case, out, why):
@@ -860,6 +890,7 @@ def main(argv):
         "exact rational arithmetic at Q in the main stream; stream f64-nan-prefill re-runs the leaf formats at double with "
         "NaN-pre-filled r under an a-priori rounding bound (float32, meta-matrices and blocked vectors not re-run)",
         "DenseMatrix / SparseMatrixBanded 0x0 and the BCSR mixed overload with an empty y are not generated randomly; "
-        "their exact failing inputs are executed and judged in stream known-edge (KNOWN_FINDINGS c01-edge:F1/F2)"],
+        "their exact failing inputs, and those of the flat meta-matrix overloads (F7, F8), are executed and judged in "
+        "stream known-edge (KNOWN_FINDINGS c01-edge:F1/F7/F8)"],
         extra_cov={"rule": stats_rule})
     return rc
